@@ -187,6 +187,13 @@ func drive(w *world) explore.Verdict {
 	t0 := vsched.Elapsed()
 	buf.Destroy()
 	took := vsched.Elapsed() - t0
+	// the state of the queue directory and of the confirmations is taken at the very moment Destroy returns (the agent
+	// process exits next); whatever goroutines still do afterwards does not count
+	files := w.files()
+	consumedAtReturn := map[string]int{}
+	for k, v := range consumed {
+		consumedAtReturn[k] = v
+	}
 	vsched.Note("Destroy returned after %v", took)
 
 	// ---- verdict: this is the moment the agent process would exit
@@ -205,12 +212,14 @@ func drive(w *world) explore.Verdict {
 	}
 	m := hutil.Metrics(mf)
 	dropped := int(hutil.Sum(m, "s_dropped_chunks_total"))
-	files := w.files()
+	if after := w.files(); len(after) != len(files) {
+		w.violate("files-change-after-shutdown-returned", "%d chunk files when Destroy returned, %d once every goroutine had come to rest: chunks are still being saved or removed after the shutdown was reported complete", len(files), len(after))
+	}
 	missing := 0
 	for _, id := range w.ids {
 		f, onDisk := files[id]
 		switch {
-		case consumed[id] > 0:
+		case consumedAtReturn[id] > 0:
 			outcome = append(outcome, id[:4]+":acked")
 			if onDisk {
 				w.violate("confirmed-file-remains", "chunk %s was confirmed but its file is still there", id)
@@ -224,6 +233,10 @@ func drive(w *world) explore.Verdict {
 			missing++
 			outcome = append(outcome, id[:4]+":MEMORY-ONLY")
 		}
+	}
+	if dropped > 0 {
+		// the queue directory is usable and its size limit ample in every scenario: nothing justifies a drop
+		w.violate("chunk-dropped-at-shutdown", "dropped_chunks_total=%d although a queue directory with room is available", dropped)
 	}
 	if missing > dropped {
 		w.violate("chunk-only-in-memory", "%d chunk(s) are neither acknowledged nor on disk when shutdown returns (dropped_chunks_total=%d): they exist only in memory and die with the process", missing, dropped)
